@@ -23,8 +23,48 @@ class OutOfReach(Exception):
     """The function uses a construct outside the supported subset (DESIGN 2.9)."""
 
 
+class FrameEscape(OutOfReach):
+    """The code reads or writes state that the contract's frame does not contain: an attribute that is not a declared field of the
+    object, a memoising decorator, a module-level object. Reported as the frame obligation of the function (state outside the
+    frame makes the result depend on the call history), not as an unmodelled construct."""
+
+
 class EngineError(Exception):
     pass
+
+
+class PathBudget(BaseException):
+    """The exploration of one path exceeded its wall-clock budget (raised from a SIGALRM handler; BaseException so that no
+    handler inside the engine swallows it)."""
+
+
+PATH_BUDGET_S = [300.0]
+# absolute time (time.time()) after which the exploration of the function currently being verified is abandoned; set when the
+# exploration starts and inherited by every process forked for it
+FUNCTION_DEADLINE = [None]
+
+
+def arm_path_timer():
+    import signal
+
+    def _alarm(signum, frame):
+        import traceback
+
+        where = " <- ".join(f"{f.name}:{f.lineno}" for f in reversed(traceback.extract_stack(frame)[-8:]))
+        import os, sys
+
+        if os.environ.get("PYVC_TRACE_SLOW"):
+            print(f"[alarm {os.getpid()}] {where}", file=sys.stderr, flush=True)
+        raise PathBudget(where)
+
+    signal.signal(signal.SIGALRM, _alarm)
+    signal.setitimer(signal.ITIMER_REAL, PATH_BUDGET_S[0])
+
+
+def disarm_path_timer():
+    import signal
+
+    signal.setitimer(signal.ITIMER_REAL, 0)
 
 
 class InlineInstead(Exception):
